@@ -149,13 +149,22 @@ def run(tier, seed, replay=None):
         "non-post-selected register, no Discard of bits, no override_bits Measure after classical "
         "post-processing); each excluded shape has a decided counter-witness and is a known finding on "
         "/repo (F23, F24, F25, F27)",
-        "meaning of tket ops, pytket's rename_units/add_blank_wires, from_tk and the backend path are "
-        "outside the model: they rest on the oracle of this check",
+        "from_tk is modelled one-for-one and proved, for every well-formed tket circuit, to be defined, "
+        "well-typed and to place every gate on the units tket names (wire-identity trace; measured bits at "
+        "the rank of the bit among the non-post-selected ones; make_units_adjacent for every width); the "
+        "round-trip statement FromToRoundTrip is stated in Lean but NOT proved (it is evaluated on the model "
+        "for every generated export inside the fragment, stream `roundtrip`); moving a post-selected "
+        "measurement to the end is harmless only under `psFinal` (finding F33 otherwise)",
+        "meaning of tket ops and of the imported boxes, pytket's rename_units/add_blank_wires/get_commands "
+        "order, Circuit.upgrade and the backend path are outside the model: they rest on the oracle of this "
+        "check",
     ]
     rep.assumptions = [
         "pytket's get_unitary/get_statevector define the meaning of tket ops (the harness simulator is "
         "compared with them on every run)",
         "hasattr(tk_circ, name) is abstracted by the table `tkHas` (validated for the generated names)",
+        "tket parameters are multiples of 1/8 (the model's angle lattice; the generators produce nothing else), "
+        "units live in the default registers q / c",
     ]
     rep.lean = lean_obligations(PROP, thorough=(tier == "thorough"))
     quick = tier == "quick"
